@@ -137,6 +137,7 @@ func c06(c *core.Check) {
 	c06URLInvalidEscape(c)
 	c06URLAtEOF(c)
 	c06PrefixCursor(c)
+	c06BlockContentFirstToken(c)
 
 	// ---- R1 preprocessing
 	r1 := c.Rule("R1", "Tokenize preprocesses its input as CSS Syntax §3.3: U+0000 becomes U+FFFD, and CRLF, CR and FF become LF, the CRLF replacement coming before the CR one (otherwise CRLF becomes two newlines), each replacement running on every path (or skipped only when its own pattern is absent)", 9)
